@@ -4,10 +4,17 @@ C17 — external commands run only when expected, with the documented arguments/
 The candidate a line of output contributes is `Spec.Complete.field`: the text before its first
 tab.  Proved here for every line: the field contains no tab, is a prefix of the line, and is the
 whole line when the line has no tab.  The call sets (`Answer.required`, `Answer.allowed`) are
-computed by `Spec.Complete.complete`; `calls_spec` (the model of the bash template makes exactly
-such calls) is the open growth target.
+computed by `Spec.Complete.complete`.  Proved over the model of the bash template with call
+recording (`Model/BashRtCalls.lean`: its call sequence equals the probe log of the real bash on
+every explored command line): `calls_have_template_form` — every call of an external command, for
+every table set and every output of the commands, passes either `("", "")` (an earlier word is
+being read between words), `(typed text, "")` (candidates are collected between words), or
+`(rest of a word, part of it already read)` — and `recording_transparent` (the candidates are those
+of the model without recording).  `calls_spec` (the calls are exactly the ones the grammar allows
+at the points the walk visits) is the open growth target.
 -/
 import Complgen.Spec.Complete
+import Complgen.Proofs.Calls
 namespace Complgen.Props.C17
 open Complgen Complgen.Spec.Complete
 
@@ -51,5 +58,16 @@ theorem field_whole (line : String) (h : '\t' ∉ line.toList) : field line = li
     intro hct; subst hct; exact h hc
   rw [this]
   exact String.ofList_toList
+
+/-- **With which arguments**: every call the template makes has one of its four forms -/
+theorem calls_have_template_form (S : BashRt.Script) (start : Nat) (words : List String) (prefix_ wb : String)
+    (c : BashRt.Call) (h : c ∈ (BashRt.completeL S start words prefix_ wb).2) :
+    c.2 = ("", "") ∨ c.2 = (prefix_, "") ∨ ∃ w ∈ words ++ [prefix_], c.2.2 ++ c.2.1 = w :=
+  BashRt.completeL_calls S start words prefix_ wb c h
+
+/-- recording the calls does not change what is offered -/
+theorem recording_transparent (S : BashRt.Script) (start : Nat) (words : List String) (prefix_ wb : String) :
+    (BashRt.completeL S start words prefix_ wb).1 = BashRt.complete S start words prefix_ wb :=
+  BashRt.completeL_fst S start words prefix_ wb
 
 end Complgen.Props.C17
